@@ -319,10 +319,13 @@ Theorem c14_platform_is_source :
                    | None => option_map status_pid (d_status d) end /\
     process_create_time d = match d_misc d with
                             | Some m => if Z.testbit (mi_flags1 m) GEN_MISC_BIT_process_create_time then Some (mi_ctime m) else None
-                            | None => None end.
+                            | None => None end /\
+    (* a Breakpad info / misc info stream is read iff it holds the whole (smallest) structure of format.rs *)
+    BREAKPAD_INFO_SIZE = GEN_BREAKPAD_INFO_SIZE /\ MISC_INFO_SIZE = GEN_MISC_INFO_SIZE.
 Proof.
   split; [exact os_of_platform_is_source|]. split; [exact cpu_of_arch_is_source|]. split; [exact pointer_width_is_source|].
-  split; [exact arch_has_context_is_source|exact flag_bits_are_source].
+  split; [exact arch_has_context_is_source|]. intro d. destruct (flag_bits_are_source d) as (A & B & C & D).
+  repeat split; assumption || reflexivity.
 Qed.
 Print Assumptions c14_platform_is_source.
 
